@@ -508,7 +508,8 @@ fn c01_ops(ctx: &Ctx) -> Collector {
                     let _ = planes.to_string();
                     let _ = format!("{planes:?}");
                     if k % 512 == 0 {
-                        planes.prune(if r.bool() { 0 } else { 100_000 });
+                        // thresholds from "everything" to "never", incl. values beyond what a timestamp can add
+                        planes.prune(*r.pick(&[0u64, 100_000, 100_000, u64::MAX, 1 << 63, i64::MAX as u64, u64::from(u32::MAX)]));
                     }
                 });
                 col.count("tracker_view_calls", 1);
